@@ -50,6 +50,7 @@ pub fn profile_for(prop: &str, thorough: bool) -> Profile {
             p.knob_permille = 150;
         }
         "C02" => {
+            p.kernel_fault_permille = 120;
             p.preset_incident_permille = 40;
             p.class_a_permille = 250;
             p.knob_permille = 200;
@@ -62,6 +63,7 @@ pub fn profile_for(prop: &str, thorough: bool) -> Profile {
             });
         }
         "C06" => {
+            p.kernel_fault_permille = 100;
             p.class_a_permille = 250;
             p.knob_permille = 200;
             p.max_len = if thorough { 24 } else { 16 };
@@ -102,6 +104,7 @@ pub fn profile_for(prop: &str, thorough: bool) -> Profile {
             });
         }
         "C01" => {
+            p.kernel_fault_permille = 200;
             p.preset_incident_permille = 60;
             p.min_len = 0;
             p.max_len = 0;
@@ -117,6 +120,7 @@ pub fn profile_for(prop: &str, thorough: bool) -> Profile {
             p.families = &["grid", "dyadic", "jitter", "dyadic"];
         }
         "C09" => {
+            p.kernel_fault_permille = 80;
             p.multi = true;
             p.random_ctor = true;
             p.class_a_permille = 100;
@@ -139,6 +143,7 @@ pub fn profile_for(prop: &str, thorough: bool) -> Profile {
             });
         }
         "C11" => {
+            p.kernel_fault_permille = 120;
             p.multi = true;
             p.class_a_permille = 150;
             p.knob_permille = 250;
@@ -161,6 +166,7 @@ pub fn profile_for(prop: &str, thorough: bool) -> Profile {
             });
         }
         "C19" => {
+            p.kernel_fault_permille = 150;
             p.preset_incident_permille = 60;
             p.class_a_permille = 200;
             p.knob_permille = 500;
@@ -186,6 +192,7 @@ pub fn profile_for(prop: &str, thorough: bool) -> Profile {
             p.families = &["dyadic", "dyadic", "grid", "jitter", "cosph", "offcosph", "offgrid", "cluster"];
         }
         "C16" => {
+            p.kernel_fault_permille = 80;
             p.toroidal = true;
             p.always_construct = true;
             p.families = &["torus"];
@@ -205,6 +212,7 @@ pub fn profile_for(prop: &str, thorough: bool) -> Profile {
             });
         }
         "C15" => {
+            p.kernel_fault_permille = 80;
             p.preset_incident_permille = 40;
             p.class_a_permille = 150;
             p.knob_permille = 150;
@@ -212,6 +220,7 @@ pub fn profile_for(prop: &str, thorough: bool) -> Profile {
             p.max_len = if thorough { 26 } else { 16 };
         }
         "C08" => {
+            p.kernel_fault_permille = 100;
             p.class_a_permille = 300;
             p.knob_permille = 350;
             p.max_len = if thorough { 24 } else { 16 };
